@@ -4,7 +4,8 @@
    order - the loop under every schedule is such a sequence (impl_loop_iteration_steps).  [is_fault s = None]: no assert of the
    code has failed so far (impl_no_fault: holds for every state reachable in a build). *)
 From LLB Require Import Engine.Rules Engine.Spec Engine.Impl.
-From LLB Require Import Engine.ImplProofs Engine.ImplProofsMono Engine.ImplProofsLoop Engine.ImplProofsInv9 Engine.ImplProofsStall Engine.ImplProofsRun Engine.ImplProofsExamples Engine.ImplProofsAvail.
+From LLB Require Import Engine.ImplProofs Engine.ImplProofsMono Engine.ImplProofsLoop Engine.ImplProofsInv9 Engine.ImplProofsStall Engine.ImplProofsRun Engine.ImplProofsExamples Engine.ImplProofsAvail Engine.ImplProofsProto.
+From LLB Require Import Engine.Protocol.
 From LLB Require Import Engine.Exec.
 From LLB Require Engine.FindCycle.
 Local Open Scope N_scope.
@@ -56,6 +57,20 @@ Theorem impl_inputs_available_at_zero : forall rules env F ord syncp s0 root s s
   exists ti, aget (is_tasks s) k = Some ti /\ kind_of s k = KWaiting /\ ti_wait ti = 0%nat /\ outstanding_count s k = 0%nat.
 Proof. exact inputs_available_at_zero. Qed.
 Print Assumptions impl_inputs_available_at_zero.
+
+(* Link to the protocol automaton of C06 (Protocol.proto_prefix_ok), PARTIAL.  [projl k l]: what task k observes of the events l of the
+   build, in order.  Proved: the observation is accepted as a prefix - start first and once, the prior value only directly after start,
+   provides only between start and inputsAvailable, inputsAvailable at most once, complete only after it and once - for the request
+   multiset [provided ...] = the slots that were provided.
+   FULL statement (not proved): the same with the request multiset of the rule, i.e. slots 0 .. |req|+|single|-1 plus the slots of the
+   branch requests that were issued.  Gap: the invariant counts a task's outstanding requests (impl_waitcount) but does not track their
+   slot ids; with impl_inputs_available_at_zero it gives "no request outstanding at inputsAvailable", not "each slot exactly once". *)
+Theorem impl_protocol_partial : forall rules env F ord syncp s0 root s,
+  in_build rules env F ord syncp s0 root s ->
+  exists l, is_log s = l ++ is_log (start_build (iemit (bump s0) (EBuildStart root)) root) /\
+            forall k, proto_prefix_ok (provided (projl k l)) (projl k l) = true.
+Proof. exact protocol_prefix. Qed.
+Print Assumptions impl_protocol_partial.
 
 (* The stalled engine (C07).  If an iteration does no work, nothing is computing and the stall test fires, and the requested key is
    itself unfinished (it has a task or is being scanned), then every node reachable from it in findCycle's successor graph waits on
